@@ -120,6 +120,10 @@ class MessageSerializer(object):
         if attr_val is not None:
           return MethodReturnMessage(error=attr_val)
 
-    return MethodReturnMessage(TApplicationException(
+    if not hasattr(result, 'success'):
+      # A void method: no declared exception was set, so it completed normally.
+      return MethodReturnMessage()
+
+    return MethodReturnMessage(error=TApplicationException(
       TApplicationException.MISSING_RESULT, "%s failed: unknown result" % fn_name))
 
